@@ -26,9 +26,9 @@ func H11_traces() {
 		mem = cert("mem", false)
 		mwPutMem(s, mem)
 	}
-	up.ids = append(up.ids, &mwIdent{format: mwKeyFormat, blob: []byte{'k', 1}, comment: "k"})
+	mwUpKey(up, 1, "k")
 	upc := cert("up", vChoose(2, "up-decodes") == 1)
-	up.ids = append(up.ids, &mwIdent{format: mwCertFormat, blob: mwCertMarshal(upc), comment: "c"})
+	mwUpCert(up, upc, "c")
 	lockedFirst := vChoose(2, "locked") == 1
 	vFact("locked-first", lockedFirst)
 	if lockedFirst {
